@@ -361,7 +361,7 @@ Qed.
 
 Definition is_pure (i : instr) : bool :=
   match i with
-  | IStart _ _ _ | ICanHandle _ _ _ _ | IGetDest _ _ _ _ | IRemoteCan _ _ _ _ _ | ICb _ _ | IDec _
+  | IStart _ _ _ | ICanHandle _ _ _ _ | IGetDest _ _ _ _ | IRemoteCan _ _ _ _ _ | ICb _ _ | IDec _ | ICheck _
   | ISendErr _ _ _ | IConnClose _ | INcChk _ _ _ _ _ | IRcvChk _ _ _ | IRcvEnq _ _ => true
   | _ => false
   end.
@@ -408,6 +408,8 @@ Proof.
   - destruct (c_state (get_conn st d) =? c_connectionActive); [eapply Hput; [exact H|reflexivity]|eapply Hsame; [exact H|reflexivity]].
   - inversion H. subst. apply frame_eqs; reflexivity.
   - eapply Hput; [exact H|reflexivity].
+  - match type of H with (if ?b then _ else _) = _ => destruct b end;
+      [eapply Hput; [exact H|reflexivity]|eapply Hsame; [exact H|reflexivity]].
   - destruct ((c_state (get_conn st k) =? c_connectionClosed) || negb room); inversion H; subst; apply frame_eqs; reflexivity.
   - destruct (c_state (get_conn st k) =? c_connectionActive); [eapply Hput; [exact H|reflexivity]|eapply Hsame; [exact H|reflexivity]].
   - destruct g as [[it stopped]|]; [|eapply Hsame; [exact H|reflexivity]].
@@ -542,7 +544,13 @@ Proof.
     + intros t [].
     + intros k0 f0 Hj. in_cases Hj; discriminate.
   - inversion H; subst. apply conj5_nil; reflexivity.
-  - inversion H; subst. apply conj5_nil; reflexivity.
+  - inversion H; subst; clear H. apply conj5.
+    + intros j Hj. in_cases Hj; split; reflexivity.
+    + intros j k0 f0 Hj Ha. in_cases Hj; discriminate.
+    + intros j t Hj Ht. in_cases Hj; contradiction.
+    + intros t [].
+    + intros k0 f0 Hj. in_cases Hj; discriminate.
+  - match type of H with (if ?b then _ else _) = _ => destruct b end; inversion H; subst; apply conj5_nil; reflexivity.
   - destruct ((c_state (get_conn st k) =? c_connectionClosed) || negb room); inversion H; subst; apply conj5_nil; reflexivity.
   - destruct (c_state (get_conn st k) =? c_connectionActive); inversion H; subst; apply conj5_nil; reflexivity.
   - (* INcChk *)
@@ -1476,6 +1484,7 @@ Proof.
   destruct (mem_key t (gcs st)) eqn:Em; [|discriminate]. inversion H. subst st'. clear H.
   assert (Hint : In t (gcs st)).
   { unfold mem_key in Em. apply existsb_exists in Em. destruct Em as [x [Hx Heq]]. apply key_eqb_ok in Heq. subst. exact Hx. }
+  rewrite items_delete_tomb_eq by (cbn [set_gcs items]; intros it0 Hl0; eapply (inv_gcs _ HI); eassumption).
   unfold items_delete. cbn [set_gcs items].
   destruct (klookup t (items st)) as [it|] eqn:El; cbn [fst].
   - pose proof (lookup_in key_eqb key_eqb_ok _ _ _ El) as Hin.
